@@ -52,6 +52,10 @@ func Generate(t *rapid.T, o ymodel.Opts) (*ymodel.Set, map[string]int) {
 		g.Set.Older, g.Set.OlderFirst = m.Name, rapid.Bool().Draw(t, "older-first")
 		g.Labels["older-revision-also-loaded"]++
 	}
+	if rapid.IntRange(0, 7).Draw(t, "one-line-layout") == 0 {
+		g.Set.OneLine = true
+		g.Labels["one-line-layout"]++
+	}
 	return g.Set, g.Labels
 }
 
